@@ -260,27 +260,20 @@ fn err_kind(e: &c2pa::Error) -> String {
 }
 
 fn urn_order(txt: &str) -> Vec<(usize, String)> {
-    let b = txt.as_bytes();
-    let mut urns: Vec<String> = vec![];
-    let mut i = 0;
-    while i < b.len() {
-        if b[i..].starts_with(b"urn:c2pa:") || b[i..].starts_with(b"urn:uuid:") {
-            let mut end = i;
-            while end < b.len() && !matches!(b[end], b'"' | b'/' | b'\\' | b' ') {
-                end += 1;
-            }
-            let u = String::from_utf8_lossy(&b[i..end]).to_string();
-            if !urns.contains(&u) {
-                urns.push(u);
-            }
-            i = end.max(i + 1);
-        } else {
-            i += 1;
+    // Only the active manifest's URN is new in every signing run; ingredient manifests keep the labels they have in
+    // their own assets (identical on both sides of every comparison made here). Renaming by order of first
+    // appearance in the JSON text would depend on the iteration order of the reader's manifest HashMap.
+    let v: Value = serde_json::from_str(txt).unwrap_or(Value::Null);
+    match v["active_manifest"].as_str() {
+        Some(l) => {
+            let u = match l.find("urn:") {
+                Some(i) => &l[i..],
+                None => l,
+            };
+            vec![(0, u.to_string())]
         }
+        None => vec![],
     }
-    let mut order: Vec<(usize, String)> = urns.into_iter().enumerate().collect();
-    order.sort_by_key(|(_, u)| std::cmp::Reverse(u.len()));
-    order
 }
 
 fn rename_urns(s: &str, order: &[(usize, String)]) -> String {
